@@ -422,3 +422,135 @@ Section MaildirProofs.
   Lemma md_move_load lit : md_load ser (md_move (md_append ser lit)) = lit.
   Proof. unfold md_load, md_move, md_append. rewrite !ser_id. reflexivity. Qed.
 End MaildirProofs.
+
+(* ------------------------------------------------------------------------ *)
+(* The statements of Props/C03.v *)
+
+Lemma st_parse_total d ct : exists c, parse d ct = Ok c.
+Proof. apply parse_total. Qed.
+
+Lemma st_content_verbatim d ct c : parse d ct = Ok c -> fetch_body d c [] = d.
+Proof. apply fetch_body_full. Qed.
+
+Lemma st_header_text_split d ct c :
+  parse d ct = Ok c -> fetch_header d c [] ++ fetch_text d c [] = d.
+Proof. apply header_text_split. Qed.
+
+Lemma st_partial_slice d ct c o n :
+  parse d ct = Ok c ->
+  get_partial (fetch_body d c []) (Some (o, n)) = firstn n (skipn o d).
+Proof. intro H. rewrite (fetch_body_full d ct c H). apply partial_slice. Qed.
+
+Lemma st_rfc822_size d ct c : parse d ct = Ok c -> size_of d c = length d.
+Proof. apply rfc822_size. Qed.
+
+Lemma st_fetch_roundtrip d ct c o rest :
+  parse d ct = Ok c ->
+  read_literal (print_literal (get_partial (fetch_body d c []) o) ++ rest)
+  = Some (match o with None => d | Some (a, n) => firstn n (skipn a d) end, rest).
+Proof.
+  intro H. rewrite read_print_literal. rewrite (fetch_body_full d ct c H).
+  destruct o as [[a n]|]; [rewrite partial_slice|]; reflexivity.
+Qed.
+
+Lemma st_part_octets d ct c b p n :
+  parse d ct = Ok c -> no_rfc822 c -> body_structure d c = Some b ->
+  In (p, n) (rfc_parts b) ->
+  n = length (fetch_mime d c p) + length (fetch_body d c p).
+Proof. intros H. apply part_octets_rfc. eapply parse_wf; eauto. Qed.
+
+Lemma st_part_octets_no_header d ct c b p n :
+  parse d ct = Ok c -> no_rfc822 c -> body_structure d c = Some b ->
+  In (p, n) (rfc_parts b) -> fetch_mime d c p = [] ->
+  n = length (fetch_body d c p).
+Proof.
+  intros H Hno Hb Hin Hm. rewrite (st_part_octets d ct c b p n H Hno Hb Hin), Hm. reflexivity.
+Qed.
+
+Lemma st_part_octets_walk d ct c p s n :
+  parse d ct = Ok c -> p <> [] -> get_subpart c p = Some s ->
+  node_announced d s = Some n ->
+  n = length (fetch_mime d c p) + length (fetch_body d c p).
+Proof. intro H. apply part_octets_walk. eapply parse_wf; eauto. Qed.
+
+(* "a:b\n\nc" : announced 6 octets for part 1, BODY[1] is 1 octet *)
+Definition wit_hdr : bytes := [97; 58; 98; 10; 10; 99]%N.
+
+Lemma st_part_octets_refuted :
+  exists d ct c b p n,
+    parse d ct = Ok c /\ no_rfc822 c /\ body_structure d c = Some b
+    /\ In (p, n) (rfc_parts b) /\ n <> length (fetch_body d c p).
+Proof.
+  exists wit_hdr, (fun _ => CtText). eexists. eexists. exists [1], 6.
+  split; [vm_compute; reflexivity|].
+  split; [constructor; [discriminate|constructor]|].
+  split; [vm_compute; reflexivity|].
+  split; [left; reflexivity|]. vm_compute. discriminate.
+Qed.
+
+(* "C:m\n\nS:i\n\nx" with the outer header deciding message/rfc822: part 1 is
+   announced with 11 octets; BODY[1.MIME] ++ BODY[1] are the 6 octets of the
+   *enclosed* message, BODY[1] its 1-octet body *)
+Definition wit_rfc : bytes := [67; 58; 109; 10; 10; 83; 58; 105; 10; 10; 120]%N.
+Definition wit_rfc_ct (hl : list line) : ctype :=
+  match hl with
+  | l :: _ => if Nat.eqb (l_start l) 0 then CtRfc822 else CtText
+  | [] => CtText
+  end.
+
+Lemma st_part_numbering_refuted :
+  exists d ct c b p n,
+    parse d ct = Ok c /\ body_structure d c = Some b /\ In (p, n) (rfc_parts b)
+    /\ n <> length (fetch_mime d c p) + length (fetch_body d c p).
+Proof.
+  exists wit_rfc, wit_rfc_ct. eexists. eexists. exists [1], 11.
+  split; [vm_compute; reflexivity|].
+  split; [vm_compute; reflexivity|].
+  split; [left; reflexivity|]. vm_compute. discriminate.
+Qed.
+
+Lemma st_maildir_verbatim (ser : bytes -> bytes) :
+  (forall x, ser x = x) ->
+  forall lit, md_load ser (md_append ser lit) = lit
+              /\ md_load ser (md_copy ser (md_append ser lit)) = lit
+              /\ md_load ser (md_move (md_append ser lit)) = lit.
+Proof.
+  intros H lit.
+  split; [apply md_append_load; exact H|].
+  split; [apply md_copy_load; exact H|apply md_move_load; exact H].
+Qed.
+
+(* a serialiser that rewrites CR LF to LF, as observed for stdlib mailbox *)
+Fixpoint crlf_to_lf (b : bytes) : bytes :=
+  match b with
+  | 13%N :: ((10%N :: _) as r) => crlf_to_lf r
+  | c :: r => c :: crlf_to_lf r
+  | [] => []
+  end.
+
+Lemma st_maildir_refuted :
+  exists ser lit, md_load ser (md_append ser lit) <> lit.
+Proof. exists crlf_to_lf, [97; 13; 10]%N. vm_compute. discriminate. Qed.
+
+(* the hypotheses of st_part_octets hold of non-trivial messages: a
+   multipart/mixed with two parts, the second one without a header *)
+Definition ex_multi : bytes :=
+  [67;58;109;10;10; 45;45;98;10; 88;58;49;10;10;104;105;10; 45;45;98;10; 121;10; 45;45;98;45;45;10]%N.
+Definition ex_multi_ct (hl : list line) : ctype :=
+  match hl with
+  | l :: _ => if Nat.eqb (l_start l) 0 then CtMulti [98%N] else CtText
+  | [] => CtText
+  end.
+
+Lemma ex_multi_ok :
+  exists c, parse ex_multi ex_multi_ct = Ok c /\ no_rfc822 c
+            /\ body_structure ex_multi c = Some (BsMulti [BsText 8 2%Z; BsText 2 0%Z])
+            /\ rfc_parts (BsMulti [BsText 8 2%Z; BsText 2 0%Z]) = [([1], 8); ([2], 2)]
+            /\ fetch_body ex_multi c [1] = [104; 105; 10]%N
+            /\ fetch_mime ex_multi c [2] = []
+            /\ fetch_body ex_multi c [2] = [121; 10]%N.
+Proof.
+  eexists. split; [vm_compute; reflexivity|].
+  split; [repeat (constructor; try discriminate)|].
+  repeat split; vm_compute; reflexivity.
+Qed.
